@@ -69,6 +69,7 @@ type method struct {
 }
 
 var structs = map[string]*ast.StructType{}
+var funcs = map[string]*ast.FuncDecl{} // top-level functions of ast.go (the helpers of the printers)
 var methods = map[string]map[string]method{} // type -> method name -> decl
 
 func fieldNames(st *ast.StructType) [][2]string {
@@ -331,6 +332,47 @@ func (w *walker) stmt(s ast.Stmt, guard string, gn []ast.Node) {
 	}
 }
 
+// ---------- Field.Name(): the label of a select item ----------
+
+// nameCases: the body of Field.Name() as an ordered list of (guard, target, expression).  A comma-ok type assertion in
+// the init of an if statement becomes the guard `X.(T) as v`; assignments are kept as `let` parts (so that a changed
+// subject of the type tests shows in the pinned list instead of stopping the extractor); anything else is refused.
+func nameCases(list []ast.Stmt, guard string, out *[][3]string) {
+	for _, s := range list {
+		switch x := s.(type) {
+		case *ast.ReturnStmt:
+			if len(x.Results) != 1 {
+				die("Field.Name(): return %s", src(x))
+			}
+			*out = append(*out, [3]string{guard, "return", src(x.Results[0])})
+		case *ast.AssignStmt:
+			if len(x.Lhs) != 1 || len(x.Rhs) != 1 {
+				die("Field.Name(): assignment %s", src(x))
+			}
+			*out = append(*out, [3]string{guard, "let " + src(x.Lhs[0]), src(x.Rhs[0])})
+		case *ast.IfStmt:
+			if x.Else != nil {
+				die("Field.Name(): if with else: %s", src(x))
+			}
+			c := src(x.Cond)
+			if x.Init != nil {
+				as, ok := x.Init.(*ast.AssignStmt)
+				if !ok || len(as.Lhs) != 2 || len(as.Rhs) != 1 || src(as.Lhs[1]) != c {
+					die("Field.Name(): if init %s", src(x.Init))
+				}
+				ta, ok := as.Rhs[0].(*ast.TypeAssertExpr)
+				if !ok || ta.Type == nil {
+					die("Field.Name(): if init %s", src(x.Init))
+				}
+				c = src(ta.X) + ".(" + src(ta.Type) + ") as " + src(as.Lhs[0])
+			}
+			nameCases(x.Body.List, and(guard, c), out)
+		default:
+			die("Field.Name(): statement outside the supported subset: %s", src(s))
+		}
+	}
+}
+
 // ---------- parser.y ----------
 
 type setter struct {
@@ -508,6 +550,36 @@ func parseY(path string, printable map[string]bool) []setter {
 	return out
 }
 
+// nameUses: the statements of lib/query (non-test files) that call .Name() on a parser.Field
+func nameUses() []string {
+	dir := filepath.Join(repo(), "lib", "query")
+	files, err := filepath.Glob(filepath.Join(dir, "*.go"))
+	if err != nil {
+		die("%v", err)
+	}
+	sort.Strings(files)
+	var out []string
+	for _, fn := range files {
+		if strings.HasSuffix(fn, "_test.go") {
+			continue
+		}
+		b, err := os.ReadFile(fn)
+		if err != nil {
+			die("%v", err)
+		}
+		for _, line := range strings.Split(string(b), "\n") {
+			t := strings.TrimSpace(line)
+			if strings.Contains(t, "field.Name()") || strings.Contains(t, "selectLabels") {
+				out = append(out, filepath.Base(fn)+": "+t)
+			}
+		}
+	}
+	if len(out) == 0 {
+		die("no use of Field.Name() found in lib/query")
+	}
+	return out
+}
+
 // ---------- output ----------
 
 func q(s string) string { return fmt.Sprintf("%q", s) }
@@ -539,7 +611,11 @@ func main() {
 				}
 			}
 		case *ast.FuncDecl:
-			if x.Recv == nil || len(x.Recv.List) != 1 {
+			if x.Recv == nil {
+				funcs[x.Name.Name] = x
+				continue
+			}
+			if len(x.Recv.List) != 1 {
 				continue
 			}
 			rt := x.Recv.List[0].Type
@@ -643,6 +719,38 @@ func main() {
 			p("(%s, %s, %s)", q(st[0]), q(st[1]), q(st[2]))
 		}
 		p("]⟩")
+	}
+	p("]\n\n")
+	// Field.Name()
+	nm, ok := methods["Field"]["Name"]
+	if !ok || nm.decl.Body == nil || nm.decl.Type.Params.NumFields() != 0 || nm.decl.Type.Results.NumFields() != 1 || src(nm.decl.Type.Results.List[0].Type) != "string" {
+		die("Field.Name() string not found")
+	}
+	var ncs [][3]string
+	nameCases(nm.decl.Body.List, "", &ncs)
+	p("/-- the body of Field.Name() (the label of a select item): guard, target, expression, in source order; the receiver is `e` -/\ndef fieldNameCases : List (String × String × String) := [")
+	for i, c := range ncs {
+		if i > 0 {
+			p(",")
+		}
+		p("\n  (%s, %s, %s)", q(c[0]), q(c[1]), q(c[2]))
+	}
+	p("]\n\n/-- where the label goes: every use of Field.Name() in lib/query (file: statement) -/\ndef fieldNameUses : List String := %s\n\n", qs(nameUses()))
+	// the helper functions of the printers
+	p("/-- the helper functions every String() method ends in: name, signature, body -/\ndef helpers : List (String × String × String) := [")
+	for i, h := range []string{"putParentheses", "joinWithSpace", "listQueryExpressions", "keyword"} {
+		fd, ok := funcs[h]
+		if !ok || fd.Body == nil {
+			die("helper %s not found in ast.go", h)
+		}
+		if i > 0 {
+			p(",")
+		}
+		var body []string
+		for _, st := range fd.Body.List {
+			body = append(body, src(st))
+		}
+		p("\n  (%s, %s, %s)", q(h), q(src(fd.Type)), q(strings.Join(body, "; ")))
 	}
 	p("]\n\nend Csvq.Gen.AstPrint\n")
 	fmt.Print(o.String())
